@@ -165,6 +165,14 @@ class Explorer:
             if any(v is True for v in vals):
                 return True
             return False if all(v is False for v in vals) else None
+        if isinstance(t, ast.IfExp):
+            c = self.test(t.test, env)
+            if c is True:
+                return self.test(t.body, env)
+            if c is False:
+                return self.test(t.orelse, env)
+            a_, b_ = self.test(t.body, env), self.test(t.orelse, env)
+            return a_ if a_ == b_ else None
         if isinstance(t, ast.Compare) and len(t.ops) == 1:
             a, b = self.value(t.left, env), self.value(t.comparators[0], env)
             if a is UNKNOWN or b is UNKNOWN or isinstance(a, Text) or isinstance(b, Text):
